@@ -8,6 +8,9 @@ import (
 	"encoding/hex"
 	"encoding/json"
 	"fmt"
+	"os"
+	"os/exec"
+	"path/filepath"
 	"regexp"
 	"runtime/metrics"
 	"strings"
@@ -602,4 +605,75 @@ func runAll(c *run.Ctx) {
 			})
 		}
 	}
+}
+
+// ---------- native fuzzing as an extra workload generator (driver side) ----------
+
+func init() { run.PostHooks["C08"] = postFuzz }
+
+var fuzzExecs = regexp.MustCompile(`execs: (\d+)`)
+var fuzzFailing = regexp.MustCompile(`Failing input written to (\S+)`)
+
+// postFuzz runs the coverage-guided fuzz targets of fuzz_test.go (same monitors
+// as the enumerated corruptions) with an execution-count budget.
+func postFuzz(d *run.Driver) {
+	budget := "40000x"
+	if d.Tier == "thorough" {
+		budget = "2000000x"
+	}
+	harness := filepath.Join(d.Root, "harness")
+	for _, target := range []string{"FuzzWKB", "FuzzTWKB", "FuzzWKT", "FuzzGeoJSON"} {
+		args := []string{"test", "-tags", "verif"}
+		if mf := os.Getenv("VERIF_MODFILE"); mf != "" {
+			args = append(args, "-modfile="+mf)
+		}
+		args = append(args, "-run=^$", "-fuzz=^"+target+"$", "-fuzztime="+budget, "./props/c08/")
+		cmd := exec.Command("go", args...)
+		cmd.Dir = harness
+		cmd.Env = append(os.Environ(), "GOFLAGS=-mod=mod", "GOPROXY=off", "GOSUMDB=off", "GOTOOLCHAIN=local")
+		out, err := cmd.CombinedOutput()
+		mon := "fuzz-" + strings.ToLower(strings.TrimPrefix(target, "Fuzz"))
+		m := d.Agg.Monitors[mon]
+		if m == nil {
+			m = &run.MonStat{}
+			d.Agg.Monitors[mon] = m
+		}
+		execs := int64(0)
+		for _, mm := range fuzzExecs.FindAllStringSubmatch(string(out), -1) {
+			fmt.Sscan(mm[1], &execs)
+		}
+		m.Checks += execs
+		d.Agg.Counters["fuzz_execs_"+target] = execs
+		if err == nil {
+			continue
+		}
+		text := string(out)
+		if !strings.Contains(text, "FAIL") {
+			d.Agg.Inconcl = append(d.Agg.Inconcl, fmt.Sprintf("fuzz target %s could not run: %v: %s", target, err, tailStr(text, 600)))
+			continue
+		}
+		m.Fails++
+		dir := filepath.Join(run.ReplayRoot(d.Root), "C08")
+		os.MkdirAll(dir, 0o755)
+		replay := filepath.Join(dir, "fuzz-"+target+".txt")
+		body := "native fuzzing (" + target + ") found an input on which a C08 monitor fails\n" + tailStr(text, 6000)
+		if mm := fuzzFailing.FindStringSubmatch(text); mm != nil {
+			src := filepath.Join(harness, "props", "c08", mm[1])
+			if b, e := os.ReadFile(src); e == nil {
+				body += "\n--- failing input (go fuzz corpus file format) ---\n" + string(b)
+				os.Remove(src)
+			}
+		}
+		os.WriteFile(replay, []byte(body), 0o644)
+		d.Agg.Violations = append(d.Agg.Violations, run.Violation{Monitor: mon, Class: "", Detail: tailStr(text, 1500), Stream: target, Replay: replay})
+	}
+	// never leave crashers in the source tree
+	os.RemoveAll(filepath.Join(harness, "props", "c08", "testdata"))
+}
+
+func tailStr(s string, n int) string {
+	if len(s) > n {
+		return s[len(s)-n:]
+	}
+	return s
 }
